@@ -8,7 +8,7 @@ EXTRA = ["x", "X", "#", "$", "%", "~", "!", "@", "^", "&", "*"]
 
 
 @st.composite
-def tm_specs(draw, max_states=5, sigma=None, halting_initial=True, pool=POOL):
+def tm_specs(draw, max_states=5, sigma=None, halting_initial=True, pool=POOL, halting_moves=False):
     # Q = working states + reject + accept; at least one working state (with n == 2 the initial state would be the rejecting state)
     n = draw(st.integers(3, max(3, max_states)))
     Q = draw(names(n, pool))
@@ -34,6 +34,12 @@ def tm_specs(draw, max_states=5, sigma=None, halting_initial=True, pool=POOL):
                 b = G[draw(st.integers(0, len(G) - 1))]
                 m = "L" if draw(st.integers(0, 2)) == 0 else "R"
                 d.append([p, a, q, b, m])
+    if halting_moves and draw(st.integers(0, 4)) == 0:
+        # entries of the transition table for the halting states: legal (delta is a function on Q x Gamma), never used by a computation
+        for p in (acc, rej):
+            for a in G:
+                if draw(st.integers(0, 2)) == 0:
+                    d.append([p, a, Q[draw(st.integers(0, n - 1))], G[draw(st.integers(0, len(G) - 1))], "L" if draw(st.booleans()) else "R"])
     return {"Q": Q, "S": S, "G": G, "d": d, "q0": q0, "acc": acc, "rej": rej, "blank": blank}
 
 
